@@ -548,7 +548,7 @@ MANIFEST_TEXT = {
         "note": _WORLD_NOTE + "; strictly increasing clock; crash = fail-stop disconnection at operation boundaries",
     },
     "C04": {
-        "text": "same executions as C03 with the storage monitors as the subject: at every publication of a checkpoint an independent oracle recomputes every hash tile (all levels), data tile, names tile and issuer object the tree needs (RFC 6962 hashing, independent TileLeaf encoder, closed-form tile coordinates) and compares them byte for byte with storage; immutable objects are never rewritten with different bytes; only staging bundles are discarded",
+        "text": "same executions as C03, plus several consecutive rounds in one instance (symbolic number of entries per round, reaching and crossing the tile boundary), with the storage monitors as the subject: at every publication of a checkpoint an independent oracle recomputes every hash tile (all levels), data tile, names tile and issuer object the tree needs (RFC 6962 hashing, independent TileLeaf encoder, closed-form tile coordinates) and compares them byte for byte with storage; immutable objects are never rewritten with different bytes; only staging bundles are discarded",
         "note": _WORLD_NOTE + "; entry shapes: certificate, precertificate, 1-2 issuers, unparseable certificates",
     },
     "C05": {
@@ -560,15 +560,15 @@ MANIFEST_TEXT = {
         "note": _WORLD_NOTE + "; interleaving at round granularity for instance B (instances share no memory and interact only through the lock store CAS, which is covered at every position)",
     },
     "C08": {
-        "text": "bounded symbolic execution of LoadLog (all verification branches), uploadIssuer, applyStagedUploads and a following round while an adversary controls what Fetch returns for an object of each class (checkpoint, right-edge hash tiles, data tile, staging bundle with the lock ahead of storage, issuer): deleted, swapped/rolled back, replaced by fully symbolic bytes (8-byte symbolic windows for long objects), truncated; the log refuses to load, stops, or the next committed checkpoint is the Merkle tree hash of the untampered committed leaves plus the newly sequenced entry",
+        "text": "bounded symbolic execution of LoadLog (all verification branches), uploadIssuer, applyStagedUploads and a following round while an adversary controls what Fetch returns for an object of each class (checkpoint, right-edge hash tiles, data tile, staging bundle with the lock ahead of storage, issuer): deleted, swapped/rolled back, replaced by fully symbolic bytes (8-byte symbolic windows for long objects), truncated, or (data tile) with authentic entries swapped or duplicated; the log refuses to load, stops, or the next committed checkpoint is the Merkle tree hash of the untampered committed leaves plus the newly sequenced entry and the data tile published with it holds the committed leaves at every position",
         "note": _WORLD_NOTE + "; ideal hashing makes 'verification passed' imply byte equality of Merkle-covered content; uncovered content (fingerprints, names) may be altered without contradicting C08 (observation in DESIGN.md); byte-level mutation of the signed checkpoint itself is C11",
     },
     "C09": {
-        "text": "bounded symbolic execution of addChainOrPreChain (and lowPriority, SetRootsFromPEM, rootPool) around a stubbed chain validator: the validator is checked to receive the current root pool, the shard's NotAfter window and the serverAuth EKU; for accepted abstract chains (symbolic Raw/TBS/SPKI bytes; certificate, precertificate, precertificate signing certificate) the logged entry, issuers and the SCT (version, log ID, timestamp, extension, signature over an independently derived MerkleTreeLeaf) equal an independent derivation; rejected or mis-routed submissions get a client error and leave no leaf; pool-full/evicted/read-only/failed answers map to 503/503/410/500",
+        "text": "bounded symbolic execution of addChainOrPreChain (and lowPriority, SetRootsFromPEM, rootPool) around a stubbed chain validator: the validator is checked to receive the current root pool, the shard's NotAfter window and the serverAuth EKU; for accepted abstract chains (symbolic Raw/TBS/SPKI bytes; certificate, precertificate, precertificate signing certificate) the logged entry, issuers and the SCT (version, log ID, timestamp, extension, signature over an independently derived MerkleTreeLeaf) equal an independent derivation; rejected or mis-routed submissions get a client error and leave no leaf; pool-full/evicted/read-only/failed answers map to 503/503/410/500; a root reload whose upload fails leaves the roots in force unchanged and a retry installs, reports and persists the new set",
         "note": "PARTIAL CLAIM: X.509 path building, EKU and NotAfter enforcement live inside certificate-transparency-go (ASN.1, math/big, reflection) and are not encoded — ctfe.ValidateChain is a nondeterministic stub with checked arguments; PEM and JSON framing are modelled",
     },
     "C07": {
-        "text": "bounded symbolic execution of the deduplication paths (current pool, in-sequencing map, cache) with up to five submissions of symbolic bytes, so that every duplicate pattern is decided by the solver, placed before, during (every yield point) and after rounds, across cache rollback to any earlier state, failed rounds and a restart; plus admission under eviction; equal entries get the same index and timestamp, each acknowledged index holds the entry, and leaves are assigned exactly once",
+        "text": "bounded symbolic execution of the deduplication paths (current pool, in-sequencing map, cache) with up to five submissions of symbolic bytes, so that every duplicate pattern is decided by the solver, placed before, during (every yield point) and after rounds, across cache rollback to any earlier state, failed rounds and a restart; a whole sequencing round placed at any storage operation of a submission that uploads a new issuer; plus admission under eviction; equal entries get the same index and timestamp, each acknowledged index holds the entry, and leaves are assigned exactly once",
         "note": _WORLD_NOTE + "; the legacy 128-bit cache table fallback and cmd/recompute-cache's duplicate key function are not exercised (stated in DESIGN.md)",
     },
     "C11": {
@@ -581,7 +581,7 @@ MANIFEST_TEXT = {
     },
     "C15": {
         "text": "bounded symbolic execution of processAddEntriesMetadata, mirrorConflict/verifyTicket, processAddEntriesPackages/Package, completeTileFromBackend, processAddEntriesCommit and ensureCutTiles with the real torchwood subtree proofs and overlay: add-entries requests with every (start, end), wrong entries, corrupted proofs, truncation at any byte, genuine and forged tickets, faults and restarts; at the instant a mirror checkpoint takes effect in the lock store an independent oracle checks that storage already serves every entry bundle and hash tile of the size-N tree with exactly the log's entries, that N does not exceed the pending checkpoint and never decreases, and signatures are returned only after that record",
-        "note": "small logs (2-4 entries quick, 258 thorough); the HTTP layer and concurrent interleaving of the three phases with other requests are outside the claim; ideal hashing, signatures and AEAD",
+        "note": "small logs (2-5 entries; a 258-entry log did not finish and is not claimed); the HTTP layer and concurrent interleaving of the three phases with other requests are outside the claim; ideal hashing, signatures and AEAD",
     },
     "C16": {
         "text": "bounded symbolic execution of processSignSubtreeRequest and splitSignatures with the real torchwood ValidSubtree/CheckSubtree/cosignature code and note.Open over a small forked log: every (start, end, checkpoint size), twelve signer combinations on the presented checkpoint (including foreign and forged lines and lines under an own name made with a foreign key), right/wrong/other-branch subtree hash and right/corrupted proof; an answer implies an independently recomputed valid range within the checkpoint, the right subtree hash, and exactly one valid subtree cosignature per own ML-DSA key whose cosignature is on the checkpoint",
@@ -592,15 +592,15 @@ MANIFEST_TEXT = {
         "note": "level 'other': confinement to the configured directory and byte-exact serving are provided by os.Root and net/http.FileServerFS (standard library over system calls) and are not encoded; ServeMux routing and the witness/mirror prefix routes are outside the claim",
     },
     "C20": {
-        "text": "bounded symbolic execution of checkLog and witnessHealth.loadVerifiers/hashes/check over in-memory directory trees with the real note, torchwood and tlog code: for logs every combination of key, origin and final-tree condition with fully symbolic clock differences is compared with an independent decision table (healthy / sunset / unhealthy); for witness and mirror directories each condition is broken alone (unpublished key, wrong directory, an arbitrary byte at any position of the right-edge tile, missing tile, mirror ahead of pending, pending not cosigned, foreign pending origin) and must turn the result into a failure that names the log",
-        "note": "the aggregation loop of the /health handler (a closure inside main) is not executed; metadata JSON, PKIX and vkey parsing are contracts; ideal signatures and hashing",
+        "text": "bounded symbolic execution of checkLog and witnessHealth.loadVerifiers/hashes/check over in-memory directory trees with the real note, torchwood and tlog code: for logs every combination of key, origin and final-tree condition (wrong size / timestamp symbolic) with fully symbolic clock differences is compared with an independent decision table (healthy / sunset / unhealthy); for witness and mirror directories each condition is broken alone (unpublished key, wrong directory, an arbitrary byte at any position of the right-edge tile, missing tile, mirror ahead of pending, pending not cosigned, foreign pending origin) and must turn the result into a failure that names the log",
+        "note": "the /health handler closure is executed with two logs and no witness; metadata JSON, PKIX and vkey parsing are contracts; ideal signatures and hashing",
     },
     "C17": {
-        "text": "bounded symbolic execution of addLeafToPool (size check, eviction, cancel channels), the wait closures, sequence and RunSequencer under a cooperative goroutine scheduler: arrival sequences with symbolic priorities and bytes into pools of size 0-3 with the eviction victim chosen by a symbolic map-iteration start; every arrival is checked against the admission rule, evicted entries are never sequenced, every submitter gets exactly one outcome, and after a stop (cancellation, read-only date with symbolic time, fatal lock error) every pending and future submission fails and nothing more is committed",
+        "text": "bounded symbolic execution of addLeafToPool (size check, eviction, cancel channels), the wait closures, sequence and RunSequencer under a cooperative goroutine scheduler: arrival sequences with symbolic priorities and bytes into pools of size 0-3 with the eviction victim chosen by a symbolic map-iteration start; every arrival is checked against the admission rule, evicted entries are never sequenced, every submitter gets exactly one outcome, and after a stop (cancellation, read-only date with symbolic time, fatal lock error, a clock reading that does not progress) every pending and future submission fails and nothing more is committed",
         "note": _WORLD_NOTE + "; virtual time (manual ticker, harness-controlled time.Since); the 503/410 HTTP mapping is checked by C09's harness",
     },
     "C10": {
-        "text": "bounded symbolic execution of the real codec functions (readTileLeaf, AppendTileLeaf, MerkleTreeLeaf, Marshal/ParseExtensions, TilePath/ParseTilePath and the cryptobyte/tlog/strconv code below them) over fully symbolic byte strings, entries and tile coordinates; every path's assertions are discharged by the SMT solver, so the claim holds for every input within the stated length bounds",
+        "text": "bounded symbolic execution of the real codec functions (readTileLeaf, AppendTileLeaf, MerkleTreeLeaf, Marshal/ParseExtensions, TilePath/ParseTilePath and the cryptobyte/tlog/strconv code below them) over fully symbolic byte strings, entries, tile coordinates and path strings (symbolic characters, canonical and non-canonical prefixes); every path's assertions are discharged by the SMT solver, so the claim holds for every input within the stated length bounds",
         "note": "bounds: byte strings up to 32 (quick) / 48 (thorough) fully symbolic bytes plus shape-split longer entries; tile index N<1000 (quick) / 10^6 (thorough); decimal formatting of symbolic integers by fmt is modelled by the engine",
     },
     "C12": {
@@ -609,10 +609,10 @@ MANIFEST_TEXT = {
     },
     "C13": {
         "text": "bounded symbolic execution of LocalBackend.Upload/Fetch/Discard, compareFile and durable.WriteFile/MkdirAll/Mkdir over a model file system with volatile and durable state: every system call of an upload is a crash point and a reader interleaving point, any call may fail, reads may be short; durability, atomicity, immutability (all lengths including 0, termination by a proven unwinding bound) and confinement for symbolic keys are asserted",
-        "note": "the model file system (fsync / rename / power-loss semantics of DESIGN.md §3.3) replaces package os and the kernel; objects up to 3 bytes quick / 40 thorough, keys up to 3 / 5 symbolic characters; two genuine defects were found, confirmed on the real file system and repaired (known_findings.json)",
+        "note": "the model file system (fsync / rename / power-loss semantics of DESIGN.md §3.3) replaces package os and the kernel; objects up to 3 bytes plus one 16387-byte re-upload across the compare chunk (quick) / 40 and 32769 bytes (thorough), keys up to 3 / 6 symbolic characters; two genuine defects were found, confirmed on the real file system and repaired (known_findings.json)",
     },
     "C18": {
-        "text": "bounded symbolic execution of the real cleanDir/overrideImmutable over a model directory whose contents are any subset of a universe of candidate paths, with the published tree size a symbolic 63-bit value: every Remove and every immutable-flag clear is checked against an independent oracle (partial inside a .p directory, full sibling present and non-empty, tile strictly left of the right edge by overflow-free arithmetic), and nothing else changes",
-        "note": "model file system for os.Root/io/fs; levels 0,1,data,names quick, up to level 6 and the mirror layout thorough; size is an input (logSize/mirroredLogSize are checked with the checkpoint machinery); the post-GC restart of the log server is covered with the ctlog world",
+        "text": "bounded symbolic execution of the real cleanDir/overrideImmutable and of logSize/mirroredLogSize (the size is exactly that of the published checkpoint, which must verify under the log's own key and origin / origin hash) over a model directory whose contents are any subset of a universe of candidate paths, with the published tree size a symbolic 63-bit value: every Remove and every immutable-flag clear is checked against an independent oracle (partial inside a .p directory, full sibling present and non-empty, tile strictly left of the right edge by overflow-free arithmetic), and nothing else changes",
+        "note": "model file system for os.Root/io/fs; levels 0,1,data,names quick, up to level 6 and the mirror layout thorough; cleanDir takes the size as an input; logSize/mirroredLogSize are executed separately over 16 sizes around the tile boundaries; the post-GC restart of the log server is covered with the ctlog world",
     },
 }
